@@ -1536,3 +1536,25 @@ C01_INIT_IDS = dict(
     implicit_return="({self_treatment_mapping}, {self_treatment_ids}, {self_sample_ids}, {self_sample_mapping}, {self_plate_ids}, {self_plate_mapping})",
 )
 ALL += [C01_INIT_CTRL, C01_INIT_IDS]
+
+# ExperimentSpace.n_unique_samples / n_unique_treatments (the sizes C01 bounds every id by): `self` is the mapping tuple the
+# property reads (from_screen passes the screen's stored tuples: C02_SPACE_FROM_SCREEN).  Trusted: one numpy call each.
+_SPACE_C01 = dict(file="src/batchie/data.py", cls="ExperimentSpace", out="SrcScreenIds.v",
+                  imports="Generated.Consts Model.Encode Model.Screen Generated.SrcEncode", overload=True, pyparams=["self"],
+                  returns="Z", vars={})
+_SPACE_NUMPY = [
+    _SENTINEL,
+    ("__m[0]", "fst {m}", "list name", {"m": _PAIR}), ("__m[2]", "snd {m}", "list Z", {"m": _TRIPLE}),
+    ("np.unique(__a)", "sort_uniq name_cmp {a}", "list name", {"a": "list name"}),      # sorted distinct values
+    ("np.unique(__a)", "sort_uniq Z.compare {a}", "list Z", {"a": "list Z"}),
+    ("np.setdiff1d(__a, __b)", "np_setdiff1d {a} {b}", "list Z", _ZL),
+    ("np.array(__a)", "{a}", "list Z", {"a": "list Z"}),
+    ("__a.size", "Z.of_nat (length {a})", "Z", {"a": "list name"}), ("__a.size", "Z.of_nat (length {a})", "Z", {"a": "list Z"}),
+]
+C01_SPACE_N_SAMPLES = dict(
+    _SPACE_C01, func="n_unique_samples", name="src_space_n_unique_samples",
+    attr_vars={"self.sample_mapping": "self_sample_mapping"}, params=[("self_sample_mapping", _PAIR)], prims=_SPACE_NUMPY)
+C01_SPACE_N_TREATMENTS = dict(
+    _SPACE_C01, func="n_unique_treatments", name="src_space_n_unique_treatments",
+    attr_vars={"self.treatment_mapping": "self_treatment_mapping"}, params=[("self_treatment_mapping", _TRIPLE)], prims=_SPACE_NUMPY)
+ALL += [C01_SPACE_N_SAMPLES, C01_SPACE_N_TREATMENTS]
